@@ -17,7 +17,7 @@ for S in $SEEDS; do
   git -C $L/repo checkout -q --detach $(git -C /repo rev-parse HEAD) 2>/dev/null
   git -C $L/repo reset -q --hard
   P=$D/patch.diff; [ -f $D/patch-ported.diff ] && P=$D/patch-ported.diff
-  if ! git -C $L/repo apply $P 2>/dev/null; then echo "$S $C patch-does-not-apply" | tee -a $SUM; continue; fi
+  if ! git -C $L/repo apply $P 2>/dev/null && ! git -C $L/repo apply -3 $P 2>/dev/null; then echo "$S $C patch-does-not-apply" | tee -a $SUM; continue; fi
   OUT=$D/regress.log
   rm -rf $L/verif/replays/$C*
   ( cd $L/verif && VERIF_REPO=$L/repo timeout 3600 ./check $C ) > $OUT 2>&1; RC=$?
